@@ -58,7 +58,9 @@ def import_subject():
         sys.path.insert(0, REPO)
     for name in [m for m in sys.modules if m == "xfab" or m.startswith("xfab.")]:
         del sys.modules[name]
+    import logging
     import xfab
+    logging.getLogger("xfab").setLevel(logging.CRITICAL)   # the subject logs every malformed line / missing key it is fed
     where = os.path.realpath(xfab.__file__)
     if not where.startswith(os.path.realpath(REPO) + os.sep):
         raise ImportError("xfab imported from %s, not from %s" % (where, REPO))
